@@ -114,6 +114,16 @@ def _stub_structs():
                 c.cell_contents = ModelStruct(c.cell_contents.format)
 
 
+def _native(fn, *args):
+    """Run `fn` outside the tracer: every argument is concrete at this point (chosen by `pick`), so the real code runs at
+    native speed and CrossHair's library models (re, uuid, TextIOWrapper) cannot blur the verdict."""
+    if _ENGINE != "chx":
+        return fn(*args)
+    from crosshair.tracers import NoTracing
+    with NoTracing():
+        return fn(*args)
+
+
 def pick(lst, idx):
     """Concrete element chosen by a symbolic index (one path per element; keeps hashed values concrete)."""
     for k in range(len(lst)):
@@ -483,7 +493,7 @@ def h_graph(shape: int, fmt_i: int, uni_i: int) -> None:
     sh = pick(list(range(N_SHAPES)), shape)
     fmt = pick(FORMATS, fmt_i)
     uni = pick(UNICODE, uni_i)
-    _roundtrip(_build_shape(sh), fmt, uni)
+    _native(lambda: _roundtrip(_build_shape(sh), fmt, uni))
 
 
 def h_graph_witness(shape: int, fmt_i: int, uni_i: int) -> None:
@@ -529,7 +539,7 @@ def h_strings(idx: int, fmt_i: int, uni_i: int, slot: str) -> None:
     s = pick(lst, idx)
     fmt = pick(FORMATS, fmt_i)
     uni = pick(UNICODE, uni_i)
-    _roundtrip(_build_strings(slot, s), fmt, uni)
+    _native(lambda: _roundtrip(_build_strings(slot, s), fmt, uni))
 
 
 def h_strings_witness(idx: int, fmt_i: int, uni_i: int, slot: str) -> None:
@@ -539,12 +549,17 @@ def h_strings_witness(idx: int, fmt_i: int, uni_i: int, slot: str) -> None:
 
 def h_types(tcode: int, arr: int, fmt_i: int, uni_i: int) -> None:
     """Attribute type by symbolic index over the 14 types x {scalar, 2-element array, empty array, 1-element array}."""
-    d = _dmx()
     assume(0 <= tcode < 14 and 0 <= arr < 4 and 0 <= fmt_i < len(FORMATS) and 0 <= uni_i < 3)
-    vt, v1, v2 = pick(_values(), tcode)
+    tc = pick(list(range(14)), tcode)
     shape = pick([0, 1, 2, 3], arr)
     fmt = pick(FORMATS, fmt_i)
     uni = pick(UNICODE, uni_i)
+    _native(_types_case, tc, shape, fmt, uni)
+
+
+def _types_case(tc, shape, fmt, uni):
+    d = _dmx()
+    vt, v1, v2 = _values()[tc]
     root = d.Element("Root", "DmeRoot", _u(1))
     kid = d.Element("Kid", "DmeNode", _u(2))
     if vt is d.ValueType.ELEMENT:
@@ -669,10 +684,10 @@ def _tree_eq(a, b, path="kv"):
         check(a[1] == b[1], "value at " + path + "/" + str(a[0]), b[1], a[1])
 
 
-def h_kv1(skel: int, blk_i: int, k1_i: int, k2_i: int, v: str, nv: int, mode: str) -> None:
+def h_kv1(skel: int, blk_i: int, k1_i: int, k2_i: int, v: str, nv: int, mode: str, nblk: int = 5) -> None:
     """to_kv1(from_kv1(t)) == t, directly and through a binary v5 / KV2 file."""
     d = _dmx()
-    assume(0 <= skel < N_SKEL and 0 <= blk_i < len(KV_BLOCKS) and 0 <= k1_i < len(KV_KEYS) and 0 <= k2_i < len(KV_KEYS))
+    assume(0 <= skel < N_SKEL and 0 <= blk_i < nblk and 0 <= k1_i < len(KV_KEYS) and 0 <= k2_i < len(KV_KEYS))
     assume(len(v) == nv)
     if mode != "direct":
         assume(v == "v\"\\"[:nv])       # files hash their strings: value concrete here (symbolic in direct mode)
@@ -683,6 +698,14 @@ def h_kv1(skel: int, blk_i: int, k1_i: int, k2_i: int, v: str, nv: int, mode: st
     blk = pick(KV_BLOCKS, blk_i)
     k1 = pick(KV_KEYS, k1_i)
     k2 = pick(KV_KEYS, k2_i)
+    if mode == "direct":
+        _kv1_case(sk, blk, k1, k2, v, mode)
+    else:
+        _native(_kv1_case, sk, blk, k1, k2, v, mode)
+
+
+def _kv1_case(sk, blk, k1, k2, v, mode):
+    d = _dmx()
     tree = _kv_tree(sk, blk, k1, k2, v)
     want = _describe(tree)
     elem = d.Element.from_kv1(tree)
@@ -697,8 +720,8 @@ def h_kv1(skel: int, blk_i: int, k1_i: int, k2_i: int, v: str, nv: int, mode: st
     _tree_eq(want, _describe(elem.to_kv1()))
 
 
-def h_kv1_witness(skel: int, blk_i: int, k1_i: int, k2_i: int, v: str, nv: int, mode: str) -> None:
-    h_kv1(skel, blk_i, k1_i, k2_i, v, nv, mode)
+def h_kv1_witness(skel: int, blk_i: int, k1_i: int, k2_i: int, v: str, nv: int, mode: str, nblk: int = 5) -> None:
+    h_kv1(skel, blk_i, k1_i, k2_i, v, nv, mode, nblk)
     raise Fail("reached")
 
 
@@ -742,12 +765,13 @@ def obligations(tier):
                     bound="versions 1-5; every int32, every colour, every blob of exact length 0-2 (thorough 0-3)"))
     obls.append(Obl("values.witness", MOD, "h_values_witness", slices=[{"version": 5, "nblob": 1}], budget_s=120, per_path_s=60,
                     witness=True, desc="reachability twin"))
-    ks = [{"mode": "direct", "nv": n} for n in ((0, 1) if quick else (0, 1, 2))]
-    ks += [{"mode": m, "nv": 3} for m in ("binary", "kv2", "kv2flat")]
+    nb = 2 if quick else 5
+    ks = [{"mode": "direct", "nv": n, "nblk": nb} for n in ((1,) if quick else (0, 1, 2))]
+    ks += [{"mode": m, "nv": 3, "nblk": nb} for m in ("binary", "kv2", "kv2flat")]
     obls.append(Obl("kv1.bridge", MOD, "h_kv1", slices=ks, budget_s=900, per_path_s=60,
                     desc="to_kv1(from_kv1(t)) equals t (names with casing, order, values, block/leaf), directly and through binary v5 / KV2",
-                    bound="7 skeletons x block name from 5 x two key slots from 11 keys (reserved names in three casings, duplicates via "
-                          "k1==k2); leaf value: symbolic non-NUL str of exact length 0-1 (thorough 0-2) in direct mode, concrete through files"))
-    obls.append(Obl("kv1.witness", MOD, "h_kv1_witness", slices=[{"mode": "direct", "nv": 1}], budget_s=120, per_path_s=60, witness=True,
+                    bound="7 skeletons x block name from 2 (thorough 5) x two key slots from 11 keys (reserved names in three casings, duplicates via "
+                          "k1==k2); leaf value: symbolic non-NUL str of exact length 1 (thorough 0-2) in direct mode, concrete through files"))
+    obls.append(Obl("kv1.witness", MOD, "h_kv1_witness", slices=[{"mode": "direct", "nv": 1, "nblk": 1}], budget_s=120, per_path_s=60, witness=True,
                     desc="reachability twin"))
     return obls
